@@ -279,6 +279,10 @@ def _handle_failure(hn, h, ob, agg, out, findings, timeout):
 def _child(conn, modname, idx, kind, tier, seed, findings):
     try:
         sys.setrecursionlimit(10000)
+        if not os.environ.get("PYVC_KEEP_STDERR"):
+            # progress bars / warnings of the libraries under test go nowhere; errors come back through the result record
+            dn = os.open(os.devnull, os.O_WRONLY)
+            os.dup2(dn, 2)
         mod = importlib.import_module(modname)
         pid = mod.PROPERTY
         if kind == "harness":
